@@ -829,7 +829,11 @@ func Gen(seed int64, n int, tier string, w *bufio.Writer) {
 				s := genSel(r, 1+r.Intn(4), false, true)
 				var sb strings.Builder
 				ShowNode(s.Build(ssb).Node(), &sb)
-				toks := mutateNode(r, strings.Fields(sb.String()))
+				orig := strings.Fields(sb.String())
+				toks := mutateNode(r, orig)
+				if _, rest, err := ParseNode(toks); err != nil || len(rest) != 0 {
+					toks = orig // the mutation repeated a map key: no such basicnode value exists
+				}
 				fmt.Fprintf(w, "node %d %s\n", max, strings.Join(toks, " "))
 			default: // arbitrary node
 				var sb strings.Builder
@@ -843,7 +847,7 @@ func Gen(seed int64, n int, tier string, w *bufio.Writer) {
 	}
 }
 
-// genExhaustive: every selector with at most 3 nested clauses over a small alphabet of clause
+// genExhaustive: every selector with at most 4 nested clauses over a small alphabet of clause
 // kinds and the limit grid {none,100,101}
 func genExhaustive(w *bufio.Writer) {
 	var build func(depth int, inRec bool) []*Sel
@@ -878,7 +882,7 @@ func genExhaustive(w *bufio.Writer) {
 		}
 		return out
 	}
-	all := build(3, false)
+	all := build(4, false)
 	for i := 0; i < len(all); i += 5 {
 		fmt.Fprintf(w, "case x%d\n", i/5)
 		for j := i; j < i+5 && j < len(all); j++ {
